@@ -56,6 +56,7 @@ type MemFile struct {
 	nd         node          // nd is node of the file.
 	vfs        *MemFS        // vfs is the memory file system of the file.
 	name       string        // name is the name of the file.
+	absPath    string        // absPath is the absolute path the name resolved to when the file was opened.
 	dirEntries []fs.DirEntry // dirEntries stores the file information returned by ReadDir function.
 	dirNames   []string      // dirNames stores the names of the file returned by Readdirnames function.
 	at         int64         // at is current position in the file used by Read and Write functions.
